@@ -227,6 +227,9 @@ def tasks(tier, seed, selftest=False):
         if not q:
             add("P:D3+U2", {"mode": "union", "strat": strat, "na": 3}, 1200)
             add("P:MAA3+SW2", {"mode": "union", "strat": strat, "na": 3}, 900)
+    # a nested component (motif-avoidant attractor at an inner node of its own diagram) next to a switch: the shape on
+    # which attaching component sub-diagrams has to propagate "no motif-avoidant attractor" node by node
+    add("P:NEST4+SW2", {"mode": "union", "strat": "scc", "na": 4}, 60 if q else 1200)
     add("S1C2", {"mode": "inputs", "srcs": [0]}, 60 if q else 1800)
     add("S2C2", {"mode": "inputs", "srcs": [0, 1]}, 40 if q else 1800)
     if not q:
@@ -237,7 +240,7 @@ def tasks(tier, seed, selftest=False):
 def main(tier, seed, t0, selftest=False):
     results = common.run_tasks(tasks(tier, seed, selftest))
     return common.finish(PROP, tier, seed, "model_checking", results, t0, selftest=selftest, functions=FUNCTIONS,
-                         bounds={"union": "symbolic product networks U2xU1, U2xU2 (quick); + D3xU2, MAA3xSW2 (thorough); strategies build, expand_scc, expand_bfs on union and parts",
+                         bounds={"union": "symbolic product networks U2xU1, U2xU2, NEST4xSW2 (6 variables, solver-constrained nested component; strategy scc) (quick); + D3xU2, MAA3xSW2 (thorough); strategies build, expand_scc, expand_bfs on union and parts",
                                  "inputs": "S1C2 (1 source + 2 core variables), S2C2 (2 sources + 2 core); all valuations of the sources; fixed-input network = SymNet view sharing the bits",
                                  "not claimed": "third sentence of C18 (agreement with an independent symbolic attractor computation on large published models): native AEON reachability on up to 2^321 states cannot be encoded; running both tools is differential testing, not a solver verdict"},
                          assumptions=["contract stubs of DESIGN.md §8 validated on every representative"])
